@@ -377,14 +377,14 @@ func (c11) Exec(plan any, c *Ctx) *Violation {
 		return v
 	}
 	for si, st := range p.Steps {
-		clockTick("a step")
+		betweenSteps("a step")
 		label := fmt.Sprintf("#%d %s", si, st.Kind)
 		var err error
 		pan := catch(func() {
 			switch st.Kind {
 			case "reconf":
 				cc := p.Cfgs[st.Cfg%len(p.Cfgs)].Config()
-				err = m.Reconfigure(&cc)
+				err = reconfN(m, &cc)
 				if err == nil {
 					if !configured && sawConf {
 						c.hit("reconfigure_to_passthrough_and_back")
@@ -393,10 +393,10 @@ func (c11) Exec(plan any, c *Ctx) *Violation {
 					nConf++
 				}
 			case "reconf_nil":
-				err = m.Reconfigure(nil)
+				err = reconfN(m, nil)
 				configured = false
 			case "setdebug":
-				m.SetDebug(st.Debug)
+				setDebugN(m, st.Debug)
 			}
 		})
 		if pan != "" {
